@@ -61,7 +61,8 @@ def gatewayExcused (w : World) (b : Body) (c : Nat) : Bool :=
 
 structure Observed where
   status : Option Nat        -- none: transport error, no HTTP reply
-  live : Bool                -- the follow-up probes were answered and delivered
+  live : Bool                -- the follow-up probes were answered and had their effect
+  liveWhy : String := ""     -- what the harness reported when not (`dead:<probe>`, `hung@<where>`)
   events : List String       -- events received by any client
   digest : String            -- server-side room state after the step
   deriving Repr
@@ -75,7 +76,7 @@ def Judge.observe (j : Judge) (w : World) (b : Body) (o : Observed) : Judge × S
     match o.status with
     | none => "violated:no-http-reply"
     | some c =>
-      if !o.live then "violated:unresponsive-after-request"
+      if !o.live then s!"violated:unresponsive-after-request({o.liveWhy})"
       else if !okStatus c then
         if gatewayExcused w b c then "na" else s!"violated:status-{c}"
       else if malformed b && !o.events.isEmpty then "violated:malformed-request-caused-event"
